@@ -34,6 +34,9 @@ type RKid struct {
 	// parent has been told to stop: it is still a child that the parent spawned, and the parent must
 	// not handle its own Stopped before it
 	Hold bool `json:"hold,omitempty"`
+	// NewID: the replacement is spawned under another id (kid/1<i>) instead of the old one: as many
+	// children as before, not the same children
+	NewID bool `json:"new_id,omitempty"`
 }
 
 type RCase struct {
@@ -76,6 +79,8 @@ func runRespawn(c RCase) (map[string]int, error) {
 	spawnKid := func(i int, h *holder) func(*actor.Context) {
 		return func(pc *actor.Context) { h.pid = pc.SpawnChildFunc(recvOf(h), "kid", actor.WithID(fmt.Sprint(i))) }
 	}
+	// every step looks at Children() first, as an actor that fans out to its children would
+	listKids := func(pc *actor.Context) { _ = pc.Children() }
 	var stoppedBeforeParent string
 	var heldFirst []*holder
 	opts := []actor.OptFunc{actor.WithID("0"), actor.WithRestartDelay(0)}
@@ -133,6 +138,9 @@ func runRespawn(c RCase) (map[string]int, error) {
 	}
 	var held []heldKid
 	for i, k := range c.Kids {
+		if k.NewID {
+			k.Hold = false // (a held former child under another id is still listed, rightly: it has not finished)
+		}
 		if k.DupFirst {
 			ran := false
 			if err := ask(func(pc *actor.Context) {
@@ -157,10 +165,18 @@ func runRespawn(c RCase) (map[string]int, error) {
 		cur := (*holder)(nil)
 		respawn := func() error {
 			h := mk(false)
-			if err := ask(spawnKid(i, h)); err != nil {
+			id := i
+			if k.NewID {
+				id = 10 + i
+				feat["replacement-under-another-id"]++
+			}
+			if err := ask(listKids); err != nil {
 				return err
 			}
-			if p := e.Registry.GetPID("par/0/kid", fmt.Sprint(i)); p == nil {
+			if err := ask(spawnKid(id, h)); err != nil {
+				return err
+			}
+			if p := e.Registry.GetPID("par/0/kid", fmt.Sprint(id)); p == nil {
 				return fmt.Errorf("child %d: its id was free (the first holder is unregistered and inside Stopped), yet SpawnChild under it registered nothing", i)
 			}
 			cur = h
@@ -275,6 +291,7 @@ func TestRespawnChild(t *testing.T) {
 				Respawn:  rapid.IntRange(0, 3).Draw(t, "respawn") > 0,
 				Late:     rapid.Bool().Draw(t, "late"),
 				Hold:     rapid.IntRange(0, 2).Draw(t, "hold") == 0,
+				NewID:    rapid.IntRange(0, 2).Draw(t, "new_id") == 0,
 				DupFirst: rapid.IntRange(0, 2).Draw(t, "dup_first") == 0,
 			})
 		}
